@@ -7,15 +7,25 @@
    judge-c07-trace <op> <inst> => <outcome> <token> ...
        parses the REAL trace back into model steps and evaluates on it the structural facts the
        theorems of Theorems/C07.lean assume:  oneVisibleTx  (crash_atomic / fail_atomic)  and
-       disciplined  (listed_is_fetchable). -/
+       disciplined  (listed_is_fetchable).
+
+   judge-c07-fail <op> <inst> <mode> <i> => <outcome> <token> ...
+       the REAL trace of a run in which step `i` (token index) returned an injected error (`err`; `errhalf`: the
+       store.Set at `i` left a partial file): the tokens before `i` are the performed prefix, the tokens after `i` are
+       what the operation's error handler (and whatever else the server still does) performed after the roll-back.
+       Evaluates structural fact 3 of Theorems/C07.lean (`handlerOk`, hypothesis of fail_listed_is_cached) on them:
+       the handler writes / deletes cache files only of ids without a committed row, and commits a new row only with
+       its complete file. Also says whether the handler's store calls and visible statements are the ones the model's
+       `handlerOf` lists (statistics: the handlers are not part of the trace correspondence). -/
 import GluonModel.Model.Crash
 
 -- DIALECT: c07trace DCrash.trace
 -- DIALECT: judge-c07-trace DCrash.judgeTrace
+-- DIALECT: judge-c07-fail DCrash.judgeFail
 namespace Gluon.Driver.DCrash
 open Gluon.Crash
 
-def connectorOps : List String := ["ccreate", "cflags", "cmailboxes", "cdeleted", "cupdated"]
+def connectorOps : List String := ["ccreate", "cflags", "cmailboxes", "cdeleted", "cupdated", "cknown"]
 
 def trace (args : List String) : String :=
   match args with
@@ -73,6 +83,60 @@ def judgeTrace (args : List String) : String :=
         s!"violation store-discipline op={op} (a cache file is written or deleted for an id that has a committed row that cannot be re-downloaded, or a row is committed without its complete file)"
       else if (chunks steps none).length == 1 then "ok nontrivial"
       else "ok trivial"
+  | _ => "bad-op"
+
+/-- store calls and visible statements of a step list, without ids -/
+def shape (steps : List Step) : List String :=
+  steps.filterMap fun st =>
+    match st with
+    | .setEnd _ _ => some "store.Set"
+    | .del ids => some s!"store.Delete/{ids.length}"
+    | .stmt q => if q.visible then some s!"tx.{q.name}" else none
+    | _ => none
+
+/-- abstract interpretation of a faulted trace, token by token. Token `i` returned the injected error: it is not
+    performed (`errhalf`: its store.Set left a partial file; a failing `tx.commit` rolls the transaction back). A
+    `!tx.rollback` annotation closes the open transaction without committing it. The tokens after `i` - the error
+    handler, or the rest of an operation that tolerates the failure - must keep the store discipline.
+    Returns the steps performed after token `i`, or the offending token. -/
+def foldFail (i : Nat) (mode : String) : Nat → Abs → List Step → List String → Except String (List Step)
+  | _, _, acc, [] => .ok acc
+  | k, a, acc, t :: r =>
+    match parseToken t with
+    | none => .error s!"unparsable-token {t}"
+    | some sts =>
+      let rolledBack := ((t.splitOn "!").drop 1).contains "tx.rollback"
+      let close (x : Abs) : Abs := if rolledBack then { x with tx := none } else x
+      if k < i then foldFail i mode (k + 1) (close (sts.foldl Abs.exec a)) acc r
+      else if k == i then
+        let half : List Step :=
+          if mode == "errhalf" then (match sts with | [.setOpen id, _, _] => [.setOpen id, .setMid id] | _ => []) else []
+        let a1 := half.foldl Abs.exec a
+        let a2 : Abs := if t.startsWith "tx.commit" then { a1 with tx := none } else a1
+        foldFail i mode (k + 1) (close a2) acc r
+      else if !disciplinedFrom sts a then .error t
+      else foldFail i mode (k + 1) (close (sts.foldl Abs.exec a)) (acc ++ sts) r
+
+def judgeFail (args : List String) : String :=
+  match args with
+  | op :: inst :: mode :: idx :: "=>" :: _outcome :: ts =>
+    match inst.toNat?, idx.toNat? with
+    | some k, some i =>
+      if ts.length ≤ i then "ok trivial fault-not-reached"
+      else
+        match foldFail i mode 0 { redl := redlOf op } [] ts with
+        | .error why =>
+          if why.startsWith "unparsable" then s!"violation {why}"
+          else s!"violation error-handler-store-discipline op={op} at={why} (after the failed step a cache file is deleted or overwritten for an id that still has a committed row, or a row is committed without its complete file)"
+        | .ok handler =>
+          let iStep := ((parseTrace (ts.take i)).getD []).length +
+            (if mode == "errhalf" && ((ts.drop i).headD "").startsWith "store.Set:" then 2 else 0)
+          let real := shape handler
+          let model := shape (handlerOf op k iStep)
+          if real.isEmpty && model.isEmpty then "ok trivial"
+          else if real == model then "ok nontrivial handler=as-modelled"
+          else s!"ok nontrivial handler=not-as-modelled real={",".intercalate real} model={",".intercalate model}"
+    | _, _ => "bad-op"
   | _ => "bad-op"
 
 end Gluon.Driver.DCrash
